@@ -21,7 +21,12 @@ type objectClass struct {
 
 func objectEnumerate(obj *object, all bool, each func(string) bool) {
 	for _, name := range obj.propertyOrder {
-		if all || obj.property[name].enumerable() {
+		prop, exists := obj.property[name]
+		if !exists {
+			// Deleted since the enumeration began (12.6.4).
+			continue
+		}
+		if all || prop.enumerable() {
 			if !each(name) {
 				return
 			}
